@@ -28,7 +28,10 @@ def _incs(events: List[Event], stats_root: str, idx: int, own_fn: Optional[str] 
 
 
 def _plus_one(e: Event) -> bool:
-    return e.aug is not None and e.aug[0] == "Add" and e.aug[1] == ONE
+    if e.aug is not None and e.aug[0] == "Add" and e.aug[1] == ONE:
+        return True
+    # written out:  s[k] = s[k] + 1
+    return isinstance(e.value, Aff) and isinstance(e.old, Aff) and (e.value - e.old) == ONE
 
 
 def _exactly_one(ctx: Ctx, fn: FuncInfo, mode: str, label: str, incs: List[Event], expected: bool, when: str) -> None:
@@ -226,6 +229,9 @@ def rule_counter_writers(ctx: Ctx, prog: Program, thorough: bool = False) -> Non
 def _agg_kind(fn: FuncInfo) -> Optional[str]:
     """'sum' / 'max' when the function is  builtin(int(s[index]) for s in stats)  over its two parameters, else None."""
     body = [s for s in fn.node.body if not (isinstance(s, ast.Expr) and isinstance(s.value, ast.Constant))]
+    if len(body) == 2 and isinstance(body[0], ast.Assign) and len(body[0].targets) == 1 and isinstance(body[0].targets[0], ast.Name) \
+            and isinstance(body[1], ast.Return) and isinstance(body[1].value, ast.Name) and body[1].value.id == body[0].targets[0].id:
+        body = [ast.Return(value=body[0].value)]  # the result held in a local
     if len(body) == 1 and isinstance(body[0], ast.Return) and isinstance(body[0].value, ast.Call) and len(fn.params) == 2:
         c = body[0].value
         if isinstance(c.func, ast.Name) and c.func.id in ("sum", "max") and len(c.args) == 1 and isinstance(c.args[0], (ast.GeneratorExp, ast.ListComp)):
@@ -244,6 +250,10 @@ def _stats_entries(prog: Program, fn: FuncInfo) -> List[Tuple[Any, Any, Optional
     if len(rets) != 1:
         raise AnalysisError(f"{fn.fq}: expected a single return")
     d = rets[0].value
+    if isinstance(d, ast.Name):  # the dictionary built in a local first
+        asg = [n for n in ast.walk(fn.node) if isinstance(n, ast.Assign) and len(n.targets) == 1 and isinstance(n.targets[0], ast.Name) and n.targets[0].id == d.id]
+        if len(asg) == 1:
+            d = asg[0].value
 
     def entry(lbl: Any, v: ast.expr, env: Dict[str, Any]) -> Tuple[Any, Any, Optional[str], str, int, bool]:
         """v: [AGG(] self.statistics [, ] index [)]  or  [int(] self.statistics[index] [)]"""
